@@ -21,6 +21,8 @@ var checkers = map[string]func(r *Report){
 	"C05": checkC05,
 	"C06": checkC06,
 	"C07": checkC07,
+	"C08": checkC08,
+	"C09": checkC09,
 	"C12": checkC12,
 	"C13": checkC13,
 	"C14": checkC14,
